@@ -430,7 +430,39 @@ pub fn execute(c: &Concrete) -> Outcome {
     let io_errors: Vec<PathBuf> = c.io_errors.iter().map(|k| PathBuf::from(to_real(&root, k))).collect();
     let reads: RefCell<Vec<(String, ReadRes)>> = RefCell::new(Vec::new());
 
-    let reader = |p: &Path| -> Result<String, Error> {
+    // how the main file is spelled on the command line, and the simulated working directory
+    let main_real = to_real(&root, &c.main);
+    let main_dir = Path::new(&main_real).parent().map(|p| p.to_path_buf()).unwrap_or_default();
+    let main_name = Path::new(&main_real).file_name().map(|n| n.to_string_lossy().to_string()).unwrap_or_default();
+    let (main_arg, cwd): (String, PathBuf) = match c.main_spelling.as_str() {
+        "bare" => (main_name.clone(), main_dir.clone()),
+        "dot-slash" => (format!("./{}", main_name), main_dir.clone()),
+        "relative-dir" => {
+            let parent = main_dir.parent().map(|p| p.to_path_buf()).unwrap_or_default();
+            let d = main_dir.file_name().map(|n| n.to_string_lossy().to_string()).unwrap_or_default();
+            (format!("{}/{}", d, main_name), parent)
+        }
+        _ => (main_real.clone(), PathBuf::new()),
+    };
+    // what a file system does with a path: relative to the working directory, `.` components dropped
+    let resolve = |p: &Path| -> PathBuf {
+        let joined = if p.is_absolute() { p.to_path_buf() } else { cwd.join(p) };
+        let mut out = PathBuf::new();
+        for comp in joined.components() {
+            match comp {
+                std::path::Component::CurDir => {}
+                std::path::Component::ParentDir => {
+                    out.pop();
+                }
+                other => out.push(other.as_os_str()),
+            }
+        }
+        out
+    };
+
+    let reader = |raw: &Path| -> Result<String, Error> {
+        let p_abs = resolve(raw);
+        let p = p_abs.as_path();
         let name = normalise(&root, &p.display().to_string());
         if io_errors.iter().any(|q| q == p) {
             reads.borrow_mut().push((name, ReadRes::IoError));
@@ -443,13 +475,13 @@ pub fn execute(c: &Concrete) -> Outcome {
             }
             None => {
                 reads.borrow_mut().push((name, ReadRes::NotFound));
-                Err(Error::FileNotFound(p.to_path_buf()))
+                Err(Error::FileNotFound(raw.to_path_buf()))
             }
         }
     };
 
     let mut args = sylt::Args::default();
-    args.args = vec![to_real(&root, &c.main)];
+    args.args = vec![main_arg.clone()];
     args.no_std = c.no_std;
     args.require = c.require.clone();
 
@@ -529,4 +561,18 @@ pub fn execute(c: &Concrete) -> Outcome {
         render_panics,
         maps_built,
     }
+}
+
+/// Runs `f` in a brand-new thread (fresh thread-locals, nothing compiled before in it).
+pub fn in_fresh_thread<T: Send + 'static>(f: impl FnOnce() -> T + Send + 'static) -> Option<T> {
+    let root = root();
+    std::thread::Builder::new()
+        .stack_size(256 << 20)
+        .spawn(move || {
+            set_root(&root);
+            f()
+        })
+        .ok()?
+        .join()
+        .ok()
 }
